@@ -6,6 +6,7 @@
 #include <potassco/program_opts/value_store.h>
 #include <potassco/program_opts/program_options.h>
 #include <potassco/program_opts/typed_value.h>
+#include <potassco/program_opts/mapped_value.h>
 #include <potassco/program_opts/detail/refcountable.h>
 #include <cstdlib>
 #include <map>
@@ -190,6 +191,62 @@ std::string run_rcopt(const Args& a) {
 	delete g; delete g2; delete c1; delete c2; delete pv;
 	return out + ":" + str(dead);
 }
+// `vmap <op>*` : a real ValueMap with typed, instrumented values (property C20: "adding typed values to a value map").
+//   a:<key>:<ty>:<val>  ValueMap::add<T>(&vm, key, new T) — the caller keeps (and deletes) the object iff add returns false
+//   n:<key>:<ty>:<val>  the same through `store<T>(vm)`: a NotifiedValue creates the object, parses <val> into it and notifies the map
+//   r:<key>             add the object the map already holds under <key> once more (same pointer)
+//   g:<key>  lookup     c  clear
+//   output per op: add=<0|1> | parse=<0|1> | <ty>:<val>:<id> | unknown | ok ; at the end the destroy count of every object
+struct MSmall { MSmall() : id(freshId()), val(0) {} MSmall(const MSmall& o) : id(freshId()), val(o.val) {} ~MSmall() { if (id < g_dtor.size()) ++g_dtor[id]; } unsigned id; int val; };
+struct MLarge { MLarge() : id(freshId()), val(0) {} MLarge(const MLarge& o) : id(freshId()), val(o.val) {} ~MLarge() { if (id < g_dtor.size()) ++g_dtor[id]; } unsigned id; int val; char pad[40]; };
+template <class T> bool parseM(const std::string& s, T& out) { if (s.empty() || s == "x") return false; out.val = std::atoi(s.c_str()); return true; }
+template <class T> std::string vmAdd(ValueMap& vm, const std::string& key, int v) {
+	T* p = new T(); p->val = v;
+	bool took = ValueMap::add<T>(&vm, key, p);
+	if (!took) delete p;              // the documented contract of the notifier: false = the map did not take the object
+	return took ? "add=1" : "add=0";
+}
+template <class T> std::string vmNotify(ValueMap& vm, const std::string& key, const std::string& text) {
+	NotifiedValue<T>* v = store<T>(vm, &parseM<T>);
+	bool ok = v->parse(key, text);
+	delete v;
+	return ok ? "parse=1" : "parse=0";
+}
+std::string run_vmap(const Args& a) {
+	g_dtor.assign(1, 0); g_next = 1;
+	std::vector<std::string> out;
+	{
+		ValueMap vm;
+		for (std::size_t k = 0; k < a.size(); ++k) {
+			std::vector<std::string> t = split(a[k], ':');
+			const std::string& o = t[0];
+			if (o == "a" && t.size() == 4) out.push_back(t[2] == "0" ? vmAdd<MSmall>(vm, t[1], std::atoi(t[3].c_str())) : vmAdd<MLarge>(vm, t[1], std::atoi(t[3].c_str())));
+			else if (o == "n" && t.size() == 4) out.push_back(t[2] == "0" ? vmNotify<MSmall>(vm, t[1], t[3]) : vmNotify<MLarge>(vm, t[1], t[3]));
+			else if (o == "r" && t.size() == 2) {
+				if (!vm.count(t[1])) { out.push_back("unknown"); continue; }
+				const ValueStore& h = vm[t[1]];
+				bool took = true;
+				if (const MSmall* p0 = value_cast<MSmall>(&h)) took = ValueMap::add<MSmall>(&vm, t[1], p0);
+				else if (const MLarge* p1 = value_cast<MLarge>(&h)) took = ValueMap::add<MLarge>(&vm, t[1], p1);
+				out.push_back(took ? "add=1" : "add=0");
+			}
+			else if (o == "g" && t.size() == 2) {
+				if (!vm.count(t[1])) { out.push_back("unknown"); continue; }
+				const ValueStore& h = vm[t[1]];
+				if (const MSmall* p0 = value_cast<MSmall>(&h)) out.push_back("0:" + str(p0->val) + ":" + str(p0->id));
+				else if (const MLarge* p1 = value_cast<MLarge>(&h)) out.push_back("1:" + str(p1->val) + ":" + str(p1->id));
+				else out.push_back(h.empty() ? "E" : "?");
+			}
+			else if (o == "c") { vm.clear(); out.push_back("ok"); }
+			else return "bad-op";
+		}
+	}   // the map is destroyed here
+	std::string d = "D[";
+	for (unsigned id = 1; id < g_next; ++id) { if (id > 1) d += ","; d += str(id) + ":" + str(g_dtor[id]); }
+	out.push_back(d + "]");
+	return join(out);
+}
+hv::Reg r0("vmap", &run_vmap);
 hv::Reg r1("vs", &run_vs);
 hv::Reg r2("rc", &run_rc);
 hv::Reg r3("rcopt", &run_rcopt);
